@@ -55,6 +55,9 @@ class CirqExporter(QCircuitExporter):
                             )
                             yield gg(*(qubits[i] for i in w))
 
+                        elif issubclass(g.__class__, gates.NopGate):
+                            continue
+
                         elif isinstance(g, gates.Swap):
                             yield cirq.SWAP(qubits[w[0]], qubits[w[1]])
 
